@@ -145,6 +145,19 @@ def check_case(case):
                     fail = ("render: mode %s %s .strftime(%r) = %r (dumper: %r)"
                             ", POSIX gives %r" % (mode, M.fmt_kw(kw), fmt, got1,
                                                   got2, exp))
+                elif case.get("alt"):
+                    # the same instant in another offset / representation,
+                    # formatted right after with the same format string
+                    akw = case["alt"]
+                    aexp = posix(cm, akw, fmt)
+                    agot = M.make_point(akw).strftime(fmt)
+                    classes.append("same_instant_other_spelling")
+                    if agot != aexp:
+                        fail = ("render_alt: mode %s %s .strftime(%r) = %r, "
+                                "POSIX gives %r (formatted right after the same"
+                                " instant written as %s)" % (
+                                    mode, M.fmt_kw(akw), fmt, agot, aexp,
+                                    M.fmt_kw(kw)))
                 elif (cm == "gregorian" and civ["Y"] >= 1000 and "%s" not in fmt
                       and abs(M.kw_tz(kw)) < 86400 and kw.get("hour_of_day") != 24):
                     dt = datetime.datetime(
@@ -258,7 +271,15 @@ def st_render(draw):
         parts.append("%" + k)
     if draw(st.booleans()):
         parts.append(draw(st.sampled_from(LITERALS)))
-    return {"kind": "render", "mode": mode, "p": kw, "fmt": "".join(parts)}
+    case = {"kind": "render", "mode": mode, "p": kw, "fmt": "".join(parts)}
+    inst = M.kw_instant(cm, kw)
+    if inst.denominator == 1 and draw(st.sampled_from([False, True])):
+        alt = G.respell(draw, cm, int(inst), allow24=False)
+        civ_y = R.cal_from_dn(cm, M.kw_dn(cm, alt))[0]
+        if 0 <= alt["year"] <= 9999 and 0 <= civ_y <= 9999:
+            alt["num_expanded_year_digits"] = kw["num_expanded_year_digits"]
+            case["alt"] = alt
+    return case
 
 
 def _sep(draw):
